@@ -179,3 +179,130 @@ def compare(drv, res: CompileResult, events, given_ids=frozenset()):
         if a != b:
             return "disagree", {"what": f"node {i} differs", "real": a, "model": b}
     return "disagree", {"what": "node count differs", "real": len(real_nodes), "model": len(model_nodes)}
+
+
+# ------------------------------------------------------------------ parser-structure tie (Rpft/Sugar.lean)
+
+
+def tree_of_rows(rows):
+    """flat rows → the tree `_parse_block` traverses (None if ill nested)"""
+    pos = 0
+
+    def body(end):
+        nonlocal pos
+        out = []
+        while pos < len(rows):
+            t = rows[pos].get("type", "")
+            if t in ("end_for", "end_block"):
+                if t != end:
+                    raise ValueError("nesting")
+                pos += 1
+                return out
+            if t in ("begin_for", "begin_block"):
+                p = pos
+                pos += 1
+                b = body("end_for" if t == "begin_for" else "end_block")
+                out.append({"for" if t == "begin_for" else "block": p, "body": b})
+            else:
+                out.append({"row": pos})
+                pos += 1
+        if end is not None:
+            raise ValueError("unterminated")
+        return out
+
+    try:
+        return body(None)
+    except ValueError:
+        return None
+
+
+def trace_structure(headers, rows, context=None):
+    """real parse with the structure traced: (CompileResult, real events, instantiation table)"""
+    from rpft.parsers.creation.flowparser import FlowParser
+    from rpft.rapidpro.models.containers import RapidProContainer
+
+    real, table = [], []
+    state = {"last": None, "begins": [], "ctx0": None}
+
+    def key_of(ctx):
+        c0 = state["ctx0"]
+        items = [(k, repr(v)) for k, v in ctx.items() if k not in c0 or repr(c0[k]) != repr(v)]
+        return sorted(items)
+
+    class Stack(list):
+        def append(self, x):
+            pos, key = state["last"]
+            state["begins"].append(pos)
+            real.append(["open", pos])
+            super().append(x)
+
+        def pop(self, *a):
+            real.append(["close", state["begins"].pop()])
+            return super().pop(*a)
+
+    class Tracer(FlowParser):
+        def _parse_row(self, row):
+            pos, key = state["last"]
+            real.append(["row", pos, [list(p) for p in key]])
+            super()._parse_row(row)
+
+    res = CompileResult()
+    with LogCapture() as cap:
+        try:
+            container = RapidProContainer()
+            p = Tracer(container, "flow", table_from_rows(headers, rows), context=copy.deepcopy(context) if context else None)
+            sp = p.sheet_parser
+            state["ctx0"] = copy.deepcopy(sp.context)
+            orig = sp.parse_next_row
+
+            def wrapped(omit_templating=False, return_index=False):
+                key = key_of(sp.context)
+                row, idx = orig(omit_templating=omit_templating, return_index=True)
+                if row is not None:
+                    pos = idx - 2
+                    state["last"] = (pos, key)
+                    if not omit_templating:
+                        lv = None
+                        if row.type == "begin_for":
+                            lv = [x for x in row.loop_variable[:2]]
+                            lv = None if not lv or not lv[0] else [lv[0], (lv[1] if len(lv) > 1 and lv[1] else None)]
+                        table.append({"pos": pos, "key": [list(q) for q in key], "incl": bool(row.include_if), "lv": lv,
+                                      "iter": [repr(x) for x in row.mainarg_iterlist] if row.type == "begin_for" else []})
+                return (row, idx) if return_index else row
+
+            sp.parse_next_row = wrapped
+            p.node_group_stack = Stack(p.node_group_stack)
+            p.parse()
+            res.doc = container.render()
+        except BaseException as e:  # noqa: BLE001
+            if isinstance(e, (KeyboardInterrupt, SystemExit)):
+                raise
+            res.exc = f"{type(e).__name__}: {e}"
+    res.errors = cap.errors()
+    res.warnings = cap.warnings()
+    return res, real, table
+
+
+def compare_structure(drv, rows, res, real, table):
+    """('agree'|'both_error'|'skipped'|'disagree', detail)"""
+    items = tree_of_rows(rows)
+    if items is None:
+        return "skipped", {}
+    ans = drv.results([{"op": "sugar.events", "items": items, "table": table, "ctx": []}])[0]
+    if "__error__" in ans:
+        return "disagree", {"driver": ans}
+    if "err" in ans:
+        if not res.ok:
+            return "both_error", {"model": ans["err"], "real": [res.exc, res.errors[:1]]}
+        return "disagree", {"what": "the model cannot follow the real parser", "model": ans["err"]}
+    if not res.ok:
+        # the real run failed later (inside _parse_row etc.): compare the prefix the real parser performed
+        if ans["events"][: len(real)] == real:
+            return "both_error", {"real": [res.exc, res.errors[:1]]}
+        return "disagree", {"what": "event prefix differs on a failing run", "model": ans["events"][:20], "real": real[:20]}
+    if ans["events"] == real:
+        return "agree", {"events": len(real)}
+    for i, (a, b) in enumerate(zip(ans["events"], real)):
+        if a != b:
+            return "disagree", {"what": f"event {i} differs", "model": a, "real": b}
+    return "disagree", {"what": "event count differs", "model": len(ans["events"]), "real": len(real)}
